@@ -119,8 +119,12 @@ class TlcResult:
 _run_counter = [0]
 
 
-def run_tlc(module, cfg_text, env=None, workers=None, timeout=900, simulate=None, extra_args=(), heap="6g", keep_json=True, tag=""):
-    """Run TLC on spec/<module>.tla with the given configuration text. Every run has its own metadir."""
+def run_tlc(module, cfg_text, env=None, workers=1, timeout=900, simulate=None, extra_args=(), heap="6g", keep_json=True, tag=""):
+    """Run TLC on spec/<module>.tla with the given configuration text. Every run has its own metadir.
+    ONE worker per process by default: the specifications park evaluated tables in TLC registers (TLCSet/TLCGet), and values shared
+    between worker threads are normalised lazily without synchronisation - with 6 workers TLC silently dropped an element of a
+    table-derived set (a false ExactlyOnce violation that one worker never reproduces).  Parallelism comes from sharding the
+    scenario space over processes (constants Shard / NbShards)."""
     _run_counter[0] += 1
     rid = "%s-%d-%d%s" % (module, os.getpid(), _run_counter[0], ("-" + tag) if tag else "")
     rdir = os.path.join(CACHE, "tlc", rid)
@@ -130,7 +134,7 @@ def run_tlc(module, cfg_text, env=None, workers=None, timeout=900, simulate=None
     with open(cfgp, "w") as f:
         f.write(cfg_text)
     cmd = ["timeout", str(int(timeout)), "java", "-XX:+UseParallelGC", "-Xmx" + heap, "-Xss16m", "-cp", TLA_CP, "tlc2.TLC",
-           "-workers", str(workers or NCPU), "-metadir", os.path.join(rdir, "states"), "-config", cfgp]
+           "-workers", str(workers or 1), "-metadir", os.path.join(rdir, "states"), "-config", cfgp]
     if simulate:
         cmd += ["-simulate", simulate]
     cmd += list(extra_args) + [os.path.join(SPEC, module + ".tla")]
